@@ -1,6 +1,7 @@
 package main
 
 import (
+	"sort"
 	"fmt"
 	"go/token"
 	"go/types"
@@ -816,4 +817,307 @@ func checkPendingDerivationsHaveAccounts(c *Ctx, rule string) {
 		c.Check(rule, "pending-derivations-have-cached-accounts", dec.Pos(), preloaded || (evictionsSafe && nEvict > 0),
 			"Unlock decrypts the private keys of cached accounts only, but does not first load the accounts of the addresses queued for derive-on-unlock, and accounts can be evicted from the cache without dropping their queued addresses: the queued derivation then runs without a private account key and the correct passphrase fails (nil private key) instead of unlocking")
 	}
+}
+
+// checkHashedBucketKeys: the address, used-address and address->account-index buckets are keyed by
+// sha256(address id) by their writers (C04-R3). Every direct Get/Put/Delete on one of these buckets, readers
+// included, must use a key that derives from sha256.Sum256: a reader looking up the raw id never finds the row
+// (the duplicate check silently stops working and an import can overwrite an issued address's row), a writer
+// using the raw id puts the address hash / public key in the clear.
+func checkHashedBucketKeys(c *Ctx, rule string) {
+	p := c.P
+	hashed := map[string]bool{"addrBucketName": true, "usedAddrBucketName": true, "addrAcctIdxBucketName": true}
+	n := 0
+	for _, fn := range p.FuncsIn("waddrmgr") {
+		if strings.Contains(outermost(fn).Name(), "igrat") {
+			continue
+		}
+		for _, ci := range callsOf(fn) {
+			call, ok := ci.(*ssa.Call)
+			if !ok || !call.Call.IsInvoke() || len(call.Call.Args) == 0 {
+				continue
+			}
+			m := call.Call.Method.Name()
+			if m != "Get" && m != "Put" && m != "Delete" {
+				continue
+			}
+			if call.Call.Method.Pkg() == nil || call.Call.Method.Pkg().Path() != walletdbPath {
+				continue
+			}
+			bucketName := ""
+			for _, o := range bucketOrigins(p, call) {
+				nb, ok := o.(*ssa.Call)
+				if !ok || !strings.HasPrefix(calleeShort(&nb.Call), "Nested") || len(nb.Call.Args) == 0 {
+					continue
+				}
+				for g := range hashed {
+					if isGlobalLoad(nb.Call.Args[len(nb.Call.Args)-1], g) {
+						bucketName = g
+					}
+				}
+			}
+			if bucketName == "" {
+				continue
+			}
+			n++
+			okKey := false
+			sl := &Slicer{P: p, InterProc: true, ThroughCallArgs: func(call *ssa.Call, arg ssa.Value) bool { return false }}
+			for _, o := range sl.Origins(call.Call.Args[0]) {
+				if sc, ok := o.(*ssa.Call); ok && calleeShort(&sc.Call) == "Sum256" {
+					okKey = true
+				}
+				// the key handed to a ForEach / cursor callback: read back from the bucket, hashed by its writer
+				if prm, ok := o.(*ssa.Parameter); ok && prm.Parent().Parent() != nil && len(p.callers(prm.Parent())) == 0 {
+					okKey = true
+				}
+				if al, ok := o.(*ssa.Alloc); ok {
+					for _, st := range storesTo(al) {
+						if sc, ok := st.Val.(*ssa.Call); ok && calleeShort(&sc.Call) == "Sum256" {
+							okKey = true
+						}
+					}
+				}
+			}
+			c.Check(rule, fmt.Sprintf("hashed-bucket-key:%s/%s.%s", fnName(fn), bucketName, m), call.Pos(), okKey,
+				fmt.Sprintf("%s accesses bucket %s with a key that is not sha256(address id), while the bucket's rows are keyed by that hash: the lookup never matches its writer's rows (or the raw id is stored in the clear)", fnName(fn), bucketName))
+		}
+	}
+	c.Floor(rule, "direct accesses to the hashed address buckets", n, 6)
+}
+
+// checkLiveKeysUsedUnderLock: the private crypto keys and the private master key live in the Manager and are
+// zeroed IN PLACE by lock() under the manager's write lock. A method of Manager that uses one of them (calls a
+// method on it, or hands it to a callee) must hold the manager mutex at that point, on every call chain:
+// otherwise a concurrent Lock() between the lock check and the use makes Encrypt seal under the all-zero key
+// (the secret is then in the database effectively unencrypted) while the operation reports success.
+func checkLiveKeysUsedUnderLock(c *Ctx, rule string) {
+	p := c.P
+	live := map[string]bool{"cryptoKeyPriv": true, "cryptoKeyScript": true, "masterKeyPriv": true}
+	n := 0
+	for _, fn := range p.FuncsIn("waddrmgr") {
+		if fn.Signature.Recv() == nil || recvName(fn) != "Manager" || fn.Parent() != nil || len(fn.Params) == 0 {
+			continue
+		}
+		isLiveLoad := func(v ssa.Value) bool {
+			tn, f, base, ok := fieldOf(stripConv(v))
+			return ok && tn == "Manager" && live[f] && base == ssa.Value(fn.Params[0])
+		}
+		for _, ci := range callsOf(fn) {
+			cc := ci.Common()
+			uses := false
+			if cc.IsInvoke() && isLiveLoad(cc.Value) {
+				uses = true
+			}
+			for _, a := range cc.Args {
+				if isLiveLoad(a) {
+					uses = true
+				}
+			}
+			if !uses {
+				continue
+			}
+			n++
+			held, why := p.heldUpward(ci, 0, map[*ssa.Function]bool{})
+			ok := held["waddrmgr.Manager.mtx"] || held["waddrmgr.Manager.mtx(R)"]
+			c.Check(rule, "live-key-used-under-manager-lock:"+fnName(fn)+"/"+calleeDesc(cc), ci.Pos(), ok,
+				fmt.Sprintf("%s uses a private crypto/master key of the manager without holding the manager mutex (held: %s; %s): lock() zeroes these keys in place, so a concurrent Lock() makes the operation run with the all-zero key", fnName(fn), lsString(held), strings.Join(why, "; ")))
+		}
+	}
+	c.Floor(rule, "uses of the live private keys in Manager methods", n, 8)
+}
+
+// checkIssuersPersistEveryAddress: both issuers first derive a batch of addresses and then persist it; the
+// persisting loop must write a row for every derived address (the only legitimate way past the write is the
+// type switch not matching the address kind). A shortcut that skips the write for some addresses ("already
+// known", judged by the in-memory cache) leaves memory ahead of the database.
+func checkIssuersPersistEveryAddress(c *Ctx, rule string) {
+	p := c.P
+	isWrite := func(i ssa.Instruction) bool {
+		call, ok := i.(*ssa.Call)
+		if !ok {
+			return false
+		}
+		n := calleeShort(&call.Call)
+		return n == "putChainedAddress" || n == "putScriptAddress"
+	}
+	typeSwitchMiss := func(from *ssa.BasicBlock, si int) bool {
+		f := edgeFactOf(from, si)
+		if f == nil || f.Kind != "false" {
+			return false
+		}
+		if ex, ok := f.V.(*ssa.Extract); ok {
+			if ta, ok := ex.Tuple.(*ssa.TypeAssert); ok && ta.CommaOk {
+				return true
+			}
+		}
+		return false
+	}
+	n := 0
+	for _, fnn := range []string{"nextAddresses", "extendAddresses"} {
+		fn := p.Func("waddrmgr", "ScopedKeyManager", fnn)
+		if fn == nil {
+			c.Unresolved(rule, "ScopedKeyManager."+fnn)
+			continue
+		}
+		for _, l := range loopsOf(fn) {
+			if l.Kind == "for" || !l.containsInstr(func(i ssa.Instruction) bool { return isCallNamed("putChainedAddress")(i) }) {
+				continue
+			}
+			n++
+			bad := l.MustPassPerIteration(p, isWrite, typeSwitchMiss)
+			c.Check(rule, "every-derived-address-is-persisted:"+fnn, l.Header.Instrs[0].Pos(), bad == "" && len(l.EarlyExits(p)) == 0,
+				fnn+" can skip the database write for a derived address ("+bad+"): the in-memory indices advance while the address row and the persisted next index do not")
+		}
+	}
+	c.Floor(rule, "address-persisting loops in the issuers", n, 2)
+}
+
+// checkDerivationPathLiterals (sibling agreement): every place in waddrmgr that builds the DerivationPath of a
+// managed address fills the same set of fields. The path built while an address is issued is what the running
+// manager reports; the one built by the loader is what a restarted manager reports — a field set by one and
+// forgotten by the other makes the two disagree.
+func checkDerivationPathLiterals(c *Ctx, rule string) {
+	p := c.P
+	type lit struct {
+		fn     *ssa.Function
+		al     *ssa.Alloc
+		fields map[string]bool
+	}
+	var lits []*lit
+	for _, fn := range p.FuncsIn("waddrmgr") {
+		byAlloc := map[*ssa.Alloc]*lit{}
+		for _, b := range fn.Blocks {
+			for _, ins := range b.Instrs {
+				st, ok := ins.(*ssa.Store)
+				if !ok {
+					continue
+				}
+				fa, ok := st.Addr.(*ssa.FieldAddr)
+				if !ok {
+					continue
+				}
+				al, ok := fa.X.(*ssa.Alloc)
+				if !ok {
+					continue
+				}
+				tn, f := fieldAddrName(fa)
+				if tn != "DerivationPath" {
+					continue
+				}
+				l := byAlloc[al]
+				if l == nil {
+					l = &lit{fn, al, map[string]bool{}}
+					byAlloc[al] = l
+					lits = append(lits, l)
+				}
+				l.fields[f] = true
+			}
+		}
+	}
+	union := map[string]bool{}
+	for _, l := range lits {
+		if !l.fields["InternalAccount"] {
+			continue
+		}
+		for f := range l.fields {
+			union[f] = true
+		}
+	}
+	n := 0
+	for _, l := range lits {
+		if !l.fields["InternalAccount"] {
+			continue // not the path of an account's address (e.g. a partial path used as a lookup key)
+		}
+		n++
+		var missing []string
+		for f := range union {
+			if !l.fields[f] {
+				missing = append(missing, f)
+			}
+		}
+		sort.Strings(missing)
+		c.Check(rule, "derivation-path-literal-complete:"+outermost(l.fn).Name(), l.al.Pos(), len(missing) == 0,
+			fmt.Sprintf("%s builds an address's DerivationPath without %v, which the sibling constructions fill in: the running manager and a restarted one report different derivation metadata for the same address", fnName(l.fn), missing))
+	}
+	c.Floor(rule, "DerivationPath constructions for account addresses", n, 4)
+}
+
+// checkMirrorStoresOnOwnBranch: the issuers keep per-branch state (next index and last address, external and
+// internal). A store to an external-branch field must be reachable only when the issuer's `internal` flag is
+// false, a store to an internal-branch field only when it is true; a store hoisted out of the branch makes a
+// change address the account's "current receiving address" (handed out again by CurrentAddress) and the mirror
+// disagree with what the loader rebuilds from the database.
+func checkMirrorStoresOnOwnBranch(c *Ctx, rule string) {
+	p := c.P
+	n := 0
+	for _, fnn := range []string{"nextAddresses", "extendAddresses"} {
+		top := p.Func("waddrmgr", "ScopedKeyManager", fnn)
+		if top == nil {
+			c.Unresolved(rule, "ScopedKeyManager."+fnn)
+			continue
+		}
+		var flag *ssa.Parameter
+		for _, prm := range top.Params {
+			if b, ok := prm.Type().Underlying().(*types.Basic); ok && b.Kind() == types.Bool {
+				flag = prm
+			}
+		}
+		if flag == nil {
+			c.Unresolved(rule, "branch flag parameter of "+fnn)
+			continue
+		}
+		isFlag := func(v ssa.Value) bool {
+			v = stripConv(v)
+			if u, ok := v.(*ssa.UnOp); ok && u.Op == token.MUL {
+				v = u.X
+			}
+			if v == ssa.Value(flag) {
+				return true
+			}
+			if fv, ok := v.(*ssa.FreeVar); ok {
+				r := freeVarRoot(fv)
+				if r == ssa.Value(flag) {
+					return true
+				}
+				if al, ok := r.(*ssa.Alloc); ok {
+					for _, st := range storesTo(al) {
+						if st.Val == ssa.Value(flag) {
+							return true
+						}
+					}
+				}
+			}
+			return false
+		}
+		for _, fn := range Closures(top) {
+			for _, b := range fn.Blocks {
+				for _, ins := range b.Instrs {
+					st, ok := ins.(*ssa.Store)
+					if !ok {
+						continue
+					}
+					fa, ok := st.Addr.(*ssa.FieldAddr)
+					if !ok {
+						continue
+					}
+					tn, f := fieldAddrName(fa)
+					if tn != "accountInfo" || !isIndexMirror(f) {
+						continue
+					}
+					wantKind := "false"
+					if strings.Contains(f, "Internal") {
+						wantKind = "true"
+					}
+					n++
+					reach := reachableAvoiding(fn, nil, st, func(from *ssa.BasicBlock, si int) bool {
+						ef := edgeFactOf(from, si)
+						return ef != nil && ef.Kind == wantKind && isFlag(ef.V)
+					})
+					c.Check(rule, fmt.Sprintf("branch-state-stored-on-own-branch:%s.%s", fnn, f), st.Pos(), !reach,
+						fmt.Sprintf("%s stores %s on a path that is not restricted to the %s branch: the other branch's issue overwrites it (e.g. a change address becomes the account's last external address and CurrentAddress hands it out as a receiving address)", fnn, f, map[string]string{"true": "internal", "false": "external"}[wantKind]))
+				}
+			}
+		}
+	}
+	c.Floor(rule, "per-branch mirror stores in the issuers", n, 8)
 }
